@@ -24,7 +24,7 @@ RULE = ("Pool of (text, ts, options) triples (bundled corpus samples, range/dura
         "whose scorer raises after j scorings / stream whose scorer raises; invariant: every completed "
         "call or stream equals the baseline. (b) ALL interleavings of the steps of two streams with "
         "n1+n2 <= 12 steps. (c) 8 threads, switch interval 1e-6, each parsing the shuffled pool. (d) "
-        "baseline recomputed under PYTHONHASHSEED 1, 2, random. (e) deep snapshots of rule registry, "
+        "baseline recomputed under PYTHONHASHSEED 1, 2, 3, random. (e) deep snapshots of rule registry, "
         "pattern tables and model tables before/after; scorer argument compared by pickle. Non-trivial = "
         "distinct histories containing an abandoned or failed call before a compared call; distinct "
         "interleavings that actually alternate; thread runs; hash-seed runs.")
@@ -33,7 +33,8 @@ POOL_TEXTS = ["friday 9-5", "8:00 pm - 9:00 pm", "tomorrow 8-10 uhr", "May 5th 2
               "tomorrow for 2 days", "15.11.2020 - 18.11.2020 3 days", "morgen früh", "#tag call mum at 5",
               "lunch with bob #work #food friday noon", "gargelbabel", "", "at", "1 2 3", "very early morning",
               "between 8 and 10 on monday", "übermorgen um halb acht", "31.04.2020", "22-2", "EOM",
-              "next friday", "5.10. - 8.10.", "two days", "now", "12am"]
+              "next friday", "5.10. - 8.10.", "two days", "now", "12am", "#a #b #c #d tomorrow 5pm",
+              "gargelbabel #one #two #three #four", "#zeta #alpha #mid monday #beta #omega", "so mo di #x #y"]
 OPTS = [
     {},
     {"latent_time": False},
@@ -56,10 +57,11 @@ def build_pool(seed, size):
     pool = []
     for i, t in enumerate(texts):
         o = dict(OPTS[i % len(OPTS)])
-        if o.get("max_stack_depth") == 0 and gen.seq_stats(t)[1] > 30:
-            o["max_stack_depth"] = 10
-        if gen.seq_stats(t)[1] > 300:
+        o2, _ = gen.bounded_options(t, dict(o, max_stack_depth=o.get("max_stack_depth", 10)), max_seq=300, max_seq_depth0=30, max_len_depth0=5)
+        if o2 is None:
             continue
+        if "max_stack_depth" in o:
+            o["max_stack_depth"] = o2["max_stack_depth"]
         pool.append([t, tss[i % len(tss)].isoformat(), o])
     return pool
 
@@ -430,7 +432,7 @@ def run(ctx):
         if got != base[idx]:
             acc.fail("differs-from-fresh-process", {"entry": e, "kind": "fresh"}, "got {} expected {}".format(str(got)[:300], str(base[idx])[:300]))
     # (d) hash seeds
-    for hs in ["1", "2", "random"]:
+    for hs in ["1", "2", "3", "random"]:
         other = fresh_baseline(pool, hs)
         for idx, e in enumerate(pool):
             acc.case(("hashseed", hs, idx), nontrivial=True, cls="hashseed-" + hs, sample={"entry": e, "PYTHONHASHSEED": hs})
